@@ -475,6 +475,49 @@ def cross_dir_rename(rep, variant, dist):
     dist["cross_dir_renames"] = 2
 
 
+def respell_with_accessed_date(rep, variant, dist):
+    """the access-date option is on and the clock has moved to a later day since the objects were made: renaming a directory (or
+    a file) to another spelling of its name, to a new name, and into another directory walks through it (`..`), which may stamp
+    and write back entries - the parent must end up with exactly one entry per object, every alias once"""
+    su = ["dev 2097152 0", "wlog 0", "format - - - 12 2048 - - - -", "dump 0 512", "clock 2021 3 1 10 0 0 0", "mount 1 1 lossy"]
+    g = namelib.geom_of(vlib.run_scripts([su[:4]], variant)[0][3].payload)
+    sc = su + ["create_dir 0 %s 5" % hexs("Holiday Pictures"), "create_file 5 %s 6" % hexs("inner one.txt"), "write_pat 6 300 1", "drop_file 6",
+               "create_dir 0 %s 7" % hexs("Second Directory"), "create_dir 0 %s 8" % hexs("third dir"), "create_file 0 %s 9" % hexs("Plain File.txt"),
+               "drop_all", "unmount", "clock 2021 3 5 11 0 0 0", "mount 1 1 lossy", "wlog 1",
+               "rename 0 %s 0 %s" % (hexs("Holiday Pictures"), hexs("HOLIDAY PICTURES")), "list 0",
+               "rename 0 %s 0 %s" % (hexs("Second Directory"), hexs("Another Name For It")), "list 0",
+               "rename 0 %s 0 %s" % (hexs("third dir"), hexs("HOLIDAY PICTURES/third dir")), "list 0",
+               "rename 0 %s 0 %s" % (hexs("Plain File.txt"), hexs("PLAIN FILE.TXT")), "list 0",
+               "drop_all", "unmount", "clock 2021 3 9 12 0 0 0", "mount 1 1 lossy",
+               "rename 0 %s 0 %s" % (hexs("HOLIDAY PICTURES/third dir"), hexs("Third Dir")), "list 0",
+               "rename 0 %s 0 %s" % (hexs("holiday pictures"), hexs("Holiday pictures")), "list 0",
+               "drop_all", "dump %d %d" % (g.root_off, 2048 * 32)]
+    res = vlib.run_scripts([sc], variant)[0]
+    rep.count()
+    bad = [o for o in res if o.kind != "ok"]
+    if bad:
+        rep.violation("renames with the access-date option on: %r" % bad[0], {"script": sc, "variant": variant}); return
+    want = [3, 3, 2, 2, 3, 3]
+    lists = [o for o in res if o.line.startswith("list 0")]
+    for k, lst in enumerate(lists):
+        sh = [e[1] for e in lst.extra]
+        if len(set(sh)) != len(sh) or len(sh) != want[k] + 1:
+            rep.violation("access-date option on, clock moved: after %s the parent lists %d entries (%d distinct aliases), %d expected"
+                          % (vlib_short(res[res.index(lst) - 1].line), len(sh), len(set(sh)), want[k] + 1), {"script": sc[:sc.index("list 0") + 1 + 2 * k] if False else sc, "variant": variant}); return
+    ents = [e for e in parse_dir(bytes.fromhex(res[-1].payload)) if not e["label"]]
+    raws = [e["sfn"][:11] for e in ents]
+    if len(set(raws)) != len(raws) or len(raws) != 4:
+        rep.violation("access-date option on, clock moved: the raw root directory holds %d live entries (%d distinct aliases), 4 expected" % (len(raws), len(set(raws))),
+                      {"script": sc, "variant": variant}); return
+    rep.distinct(("respell-accessed", variant)); rep.cov["traces_validated_against_impl"] += 1
+    dist["respell_with_accessed_date"] = 6
+
+
+def vlib_short(line):
+    t = line.split(" ")
+    return " ".join([t[0]] + [bytes.fromhex(x).decode("utf-8", "replace") if len(x) > 3 and all(c in "0123456789abcdef" for c in x) else x for x in t[1:]])[:80]
+
+
 def alias_form(raw):
     b = raw[:8].rstrip(b" ")
     if b"~" not in b:
@@ -496,6 +539,7 @@ def run(rep, tier, seed):
             dist["ops"][op[0]] += 1
         run_scn(rep, scn, "default", table, geoms, dist)
     cross_dir_rename(rep, "default", dist)
+    respell_with_accessed_date(rep, "default", dist)
     rep.cov["distribution"] = dist
     rep.cov["rule"] = ("one evaluation = one directory operation (create_file/create_dir/rename/remove/list) inside a scenario; distinct = distinct "
                        "(scenario, FAT type, root/sub-directory, long name, alias) for which the alias read from the device writes of the create was legal "
